@@ -11,6 +11,7 @@ lookup after each consumption) and `seed_adjacent_proxy_caps` (two proxy-only ca
 request array).  In the history oracle a newly minted proxy-only URL must be unlike every URL granted so far on either
 region, and a request extending it must be attributed to the very region it was registered on.
 """
+from hippolyzer.lib.base.datatypes import UUID
 from vlib.harness import harness, shard
 from harness import proxyfix as px
 from harness import httpfix as hx
@@ -401,6 +402,74 @@ def temporary_consumption_order(region_b: bool, t0: bool, t1: bool, t2: bool, t3
 
 
 shard(temporary_consumption_order, "c0", range(4), ["first", "second", "third", "newest"], globals())
+
+
+# ------------------------------------------------------------------------------------------------ re-grants, two sessions
+GURLS = ["https://sim.example/eq/aaaa", "https://sim.example/eq/bbbb", "https://sim.example/eq/aaaa/x"]
+
+
+@harness(pre=["(0 <= g0) & (g0 <= 2) & (0 <= g1) & (g1 <= 2) & (0 <= g2) & (g2 <= 2) & (0 <= g3) & (g3 <= 2)", "0 <= n <= 4"],
+         post="_", timeout=300, covers=COVERS,
+         note="grant histories on ONE name: every sequence of up to 4 grants over 3 URLs (two of them prefix-related), including "
+              "re-granting a URL that was granted before with another one in between (A, B, A): after every grant lookup by name "
+              "(region.caps / region.cap_urls) yields the URL granted last, and every URL granted so far still resolves to that "
+              "name, its region and session")
+def regrant_order(region_b: bool, n: int, g0: int, g1: int, g2: int, g3: int) -> bool:
+    reset_caps()
+    region = REGION_B if region_b else px.REGION
+    seq = [GURLS[small(g, 0, 2)] for g in (g0, g1, g2, g3)][:small(n, 0, 4)]
+    granted = []
+    for url in seq:
+        region.update_caps({"EventQueueGet": url})
+        granted.append(url)
+        if region.caps["EventQueueGet"] != (CapType.NORMAL, url) or region.cap_urls["EventQueueGet"] != url:
+            return False
+        for u in set(granted):
+            got = px.SM.resolve_cap(u + "/poll?x=1")
+            if not got or got.cap_name != "EventQueueGet" or got.region() is not region or got.session() is not px.SESSION:
+                return False
+            # prefix-related grants: the property does not say which of the extended URLs wins; any granted one is accepted
+            if got.base_url not in [v for v in set(granted) if (u + "/poll?x=1").startswith(v)]:
+                return False
+    return True
+
+
+SESSION2 = px.SM.create_session({
+    "session_id": UUID("44444444-4444-4444-4444-444444444444"), "secure_session_id": UUID("55555555-5555-5555-5555-555555555555"),
+    "agent_id": UUID("66666666-6666-6666-6666-666666666666"), "circuit_code": 4321, "sim_ip": px.SIM[0], "sim_port": px.SIM[1],
+    "region_x": 0, "region_y": 123, "seed_capability": "https://test.localhost:4/seed-of-second-session",
+})
+REGION_S2 = SESSION2.regions[-1]
+ASSET_CAPS = ["GetTexture", "GetMesh", "ViewerAsset"]
+
+
+@harness(pre=["0 <= ci <= 2", "0 <= order <= 1"], post="_", timeout=300, covers=COVERS,
+         note="two SESSIONS in the same simulator (same circuit address, different seeds) whose regions are granted the SAME "
+              "asset-capability URL and wrap it (either order): the two wrapper URLs differ, and a request extending each wrapper "
+              "resolves to the wrapped capability on its own region and session")
+def wrapper_caps_two_sessions(ci: int, order: int) -> bool:
+    reset_caps()
+    name = ASSET_CAPS[small(ci, 0, 2)]
+    REGION_S2.caps.clear()
+    REGION_S2.caps["Seed"] = (CapType.NORMAL, "https://test.localhost:4/seed-of-second-session")
+    REGION_S2._recalc_caps()
+    shared = "https://asset-cdn.example/cap/" + name.lower()
+    pairs = [(px.REGION, px.SESSION), (REGION_S2, SESSION2)]
+    if small(order, 0, 1):
+        pairs.reverse()
+    urls = []
+    for region, session in pairs:
+        region.update_caps({name: shared})
+        urls.append(region.register_wrapper_cap(name))
+    if urls[0] == urls[1]:
+        return False
+    for (region, session), url in zip(pairs, urls):
+        got = px.SM.resolve_cap(url + "/?texture_id=1")
+        if not got or got.cap_name != name + "ProxyWrapper" or got.type != CapType.WRAPPER:
+            return False
+        if got.region is None or got.region() is not region or got.session() is not session:
+            return False
+    return True
 
 
 EVIDENCE = {
